@@ -106,24 +106,46 @@ Definition candidates (dflts overrides : tree) (cfgs : list dict) (j : list jev)
     (map fst (leaf_paths (Node view)) ++ map fst (leaf_paths dflts) ++ map fst (leaf_paths overrides) ++
      flat_map (fun g => map fst (leaf_paths (Node g))) cfgs ++ jpaths j).
 
-(** does a key exist at [p] right now (as a setting, or as a section holding a
-    setting)?  Decided by the reference itself. *)
+(** every path of a tree, sections (also empty ones) included, root excluded *)
+Fixpoint node_paths (t : tree) : list path :=
+  match t with
+  | Leaf _ => []
+  | Node kids =>
+      (fix go (l : list (string * tree)) : list path :=
+         match l with
+         | [] => []
+         | (k, c) :: l' => [k] :: map (cons k) (node_paths c) ++ go l'
+         end) kids
+  end.
+
+(** is there something at [q] right now -- a setting, or a section (even an
+    empty one)?  Gone if the journal's last word on it is a deletion; there if
+    it was written; otherwise there iff some level has it. *)
+Definition alive (mw : bool) (dflts overrides : tree) (cfgs : list dict) (j : list jev) (q : path) : bool :=
+  match jstate mw q j None with
+  | Some None => false
+  | Some (Some _) => true
+  | None =>
+      existsb (fun l => match lookup q l with Some _ => true | None => false end)
+              (dflts :: overrides :: map (fun g => Node g) cfgs)
+  end.
+
+Definition all_candidates (dflts overrides : tree) (cfgs : list dict) (j : list jev) : list path :=
+  node_paths dflts ++ node_paths overrides ++ flat_map (fun g => node_paths (Node g)) cfgs ++ jpaths j.
+
+(** does a key exist at [p] right now? *)
 Definition exists_now (mw : bool) (dflts overrides : tree) (cfgs : list dict) (e : list (string * string))
            (j : list jev) (p : path) : bool :=
-  existsb (fun q => is_prefix p q &&
-                    match expected mw dflts overrides cfgs e j q with Some _ => true | None => false end)
-          (p :: map fst (leaf_paths dflts) ++ map fst (leaf_paths overrides) ++
-           flat_map (fun g => map fst (leaf_paths (Node g))) cfgs ++ jpaths j).
+  existsb (fun q => is_prefix p q && alive mw dflts overrides cfgs j q)
+          (p :: all_candidates dflts overrides cfgs j).
 
 (** the keys that exist right now directly below [p] (as paths) *)
 Definition children_now (mw : bool) (dflts overrides : tree) (cfgs : list dict)
            (e : list (string * string)) (j : list jev) (p : path) : list path :=
-  let cands := map fst (leaf_paths dflts) ++ map fst (leaf_paths overrides) ++
-               flat_map (fun g => map fst (leaf_paths (Node g))) cfgs ++ jpaths j in
-  map (fun q => firstn (S (List.length p)) q)
-      (filter (fun q => strict_prefix p q &&
-                        match expected mw dflts overrides cfgs e j q with Some _ => true | None => false end)
-              cands).
+  nub_paths
+    (map (fun q => firstn (S (List.length p)) q)
+         (filter (fun q => strict_prefix p q && alive mw dflts overrides cfgs j q)
+                 (all_candidates dflts overrides cfgs j))).
 
 Definition tree_ev (p : path) (t : tree) : jev :=
   match t with Leaf v => JSet p v | Node _ => JSetTree p t end.
